@@ -61,8 +61,19 @@ Definition old_id (n i id : nat) : Prop := (id < i)%nat \/ (n <= id < n + i)%nat
 Definition new_id (n i id : nat) : Prop := (i <= id < n)%nat \/ (n + i <= id)%nat.
 Definition tlx (e : ent) : Z := let '(x1, _, _, _) := snd e in x1.
 Definition tly (e : ent) : Z := let '(_, y1, _, _) := snd e in y1.
-Lemma keep_eq m e : keep m e = match m (tlx e) (tly e) with Some (id, _) => Nat.eqb id (fst e) | None => false end.
+Lemma keep_eq m e : keep m e =
+  match m (tlx e) (tly e) with Some (id, r) => Nat.eqb id (fst e) || negb (contains r (snd e)) | None => true end.
 Proof. unfold keep, tlx, tly. destruct (snd e) as [[[x1 y1] x2] y2]. reflexivity. Qed.
+Lemma contains_spec a b : rect_ok b -> (contains a b = true <-> forall x y, in_rect x y b = true -> in_rect x y a = true).
+Proof.
+  destruct a as [[[a1 b1] a2] b2], b as [[[c1 d1] c2] d2]. unfold rect_ok, contains, in_rect. intros Hb. split.
+  - intros H x y Hin. lia.
+  - intros H. pose proof (H c1 d1 ltac:(lia)). pose proof (H c2 d2 ltac:(lia)). lia.
+Qed.
+Lemma contains_trans a b c : contains a b = true -> contains b c = true -> contains a c = true.
+Proof. destruct a as [[[a1 b1] a2] b2], b as [[[c1 d1] c2] d2], c as [[[e1 f1] e2] f2]. unfold contains. lia. Qed.
+Lemma contains_refl a : contains a a = true.
+Proof. destruct a as [[[a1 b1] a2] b2]. unfold contains. lia. Qed.
 Lemma tl_in_e e : rect_ok (snd e) -> in_rect (tlx e) (tly e) (snd e) = true.
 Proof. intros H. pose proof (tl_in (snd e) H) as T. unfold tlx, tly. destruct (snd e) as [[[x1 y1] x2] y2]. exact T. Qed.
 
@@ -75,7 +86,7 @@ Lemma flat_step_spec n i m r m1 e : flat_step n i m r = (m1, e) -> rect_ok r ->
   (forall x y, in_rect x y (snd e) = false -> m1 x y = m x y) /\
   match overlaps m r with
   | [] => e = (i, r) /\ (forall x y, in_rect x y r = true -> m x y = None)
-  | L :: _ => fst e = (n + i)%nat /\ (exists x y, m x y = Some L) /\ m1 (tlx L) (tly L) = Some e
+  | L :: _ => fst e = (n + i)%nat /\ (exists x y, m x y = Some L) /\ m1 (tlx L) (tly L) = Some e /\ contains (snd e) (snd L) = true
   end.
 Proof.
   unfold flat_step. intros H Hr Hm. destruct (overlaps m r) as [|L ls] eqn:LO.
@@ -90,50 +101,30 @@ Proof.
     destruct (union_all_spec (L :: ls) r Hr Hls) as (Uok & Ur & Uls).
     assert (HL : In L (overlaps m r)) by (rewrite LO; left; reflexivity).
     apply overlaps_in in HL. destruct HL as (x0 & y0 & Hin0 & Hm0).
-    refine (conj (or_intror eq_refl) (conj Uok (conj Ur (conj _ (conj _ (conj eq_refl (conj _ _))))))).
+    refine (conj (or_intror eq_refl) (conj Uok (conj Ur (conj _ (conj _ (conj eq_refl (conj _ (conj _ _)))))))).
     + intros x y Hin. unfold fill. rewrite Hin. reflexivity.
     + intros x y Hout. unfold fill. rewrite Hout.
       destruct (in_rect x y r) eqn:E; [|reflexivity]. cbn [snd] in Hout. rewrite (Ur x y E) in Hout. discriminate.
     + exists x0, y0. exact Hm0.
     + unfold fill. rewrite (Uls L (or_introl eq_refl) _ _ (tl_in_e L (Hls L (or_introl eq_refl)))). reflexivity.
-Qed.
-
-(* positions only ever receive identities of the ranges being processed *)
-Lemma flat_sticky n : forall l i m m' es, flat n i m l = (m', es) -> Forall rect_ok l ->
-  (forall x y e0, m x y = Some e0 -> rect_ok (snd e0)) ->
-  (forall x y, m' x y = m x y \/ exists e, m' x y = Some e /\ (fst e = fst e) /\
-                 exists j, (i <= j < i + length l)%nat /\ (fst e = j \/ fst e = (n + j)%nat)) /\
-  (forall x y e0, m' x y = Some e0 -> rect_ok (snd e0)).
-Proof.
-  induction l as [|r l IH]; intros i m m' es H Hl Hm; cbn [flat] in H.
-  - inversion H; subst. split; [intros; left; reflexivity|exact Hm].
-  - destruct (flat_step n i m r) as [m1 e] eqn:FS. destruct (flat n (S i) m1 l) as [m2 es'] eqn:FL. inversion H; subst; clear H.
-    inversion Hl as [|? ? Hr Hl']; subst.
-    destruct (flat_step_spec n i m r m1 e FS Hr Hm) as (Hid & Hok & _ & Hin & Hout & _).
-    assert (Hm1 : forall x y e0, m1 x y = Some e0 -> rect_ok (snd e0)).
-    { intros x y e0 E. destruct (in_rect x y (snd e)) eqn:B.
-      - rewrite (Hin x y B) in E. inversion E; subst. exact Hok.
-      - rewrite (Hout x y B) in E. exact (Hm x y e0 E). }
-    destruct (IH (S i) m1 m' es' FL Hl' Hm1) as (St & Hok').
-    split; [|exact Hok'].
-    intros x y. destruct (St x y) as [E|(e1 & E1 & _ & j & Hj & Hje)].
-    + destruct (in_rect x y (snd e)) eqn:B.
-      * right. exists e. rewrite E, (Hin x y B). refine (conj eq_refl (conj eq_refl _)). exists i. split; [cbn [length]; lia|exact Hid].
-      * left. rewrite E. apply Hout. exact B.
-    + right. exists e1. refine (conj E1 (conj eq_refl _)). exists j. split; [cbn [length]; lia|exact Hje].
+    + apply (contains_spec _ _ (Hls L (or_introl eq_refl))). exact (Uls L (or_introl eq_refl)).
 Qed.
 
 (* ---- the first loop ---- *)
+(* either nothing overlapped (the entries are the ranges as given, pairwise disjoint, and no position that was taken
+   has changed), or some entry has been joined into another: the position of its top-left corner now holds a different
+   entry that contains it *)
 Lemma flat_spec n : forall l i m done m' es,
   flat n i m l = (m', es) -> (i + length l <= n)%nat -> Forall rect_ok l ->
   (forall x y e0, m x y = Some e0 -> In e0 done) ->
   (forall e0, In e0 done -> old_id n i (fst e0) /\ rect_ok (snd e0)) ->
   length es = length l /\ (forall e0, In e0 es -> rect_ok (snd e0)) /\
-  ((map snd es = l /\ ForallOrdPairs disjoint l /\ (forall r, In r l -> forall x y, in_rect x y r = true -> m x y = None))
+  ((map snd es = l /\ ForallOrdPairs disjoint l /\ (forall r, In r l -> forall x y, in_rect x y r = true -> m x y = None) /\
+    (forall x y, m x y <> None -> m' x y = m x y))
    \/ (exists e0, In e0 (done ++ es) /\ keep m' e0 = false)).
 Proof.
   induction l as [|r l IH]; intros i m done m' es H Hn Hl Hm Hd; cbn [flat] in H.
-  - inversion H; subst. refine (conj eq_refl (conj (fun e0 (F : In e0 []) => match F with end) (or_introl (conj eq_refl (conj (FOP_nil _) _))))).
+  - inversion H; subst. refine (conj eq_refl (conj (fun e0 (F : In e0 []) => match F with end) (or_introl (conj eq_refl (conj (FOP_nil _) (conj _ (fun x y _ => eq_refl))))))).
     intros r [].
   - destruct (flat_step n i m r) as [m1 e] eqn:FS. destruct (flat n (S i) m1 l) as [m2 es'] eqn:FL. inversion H; subst; clear H.
     inversion Hl as [|? ? Hr Hl']; subst. cbn [length] in Hn.
@@ -151,61 +142,44 @@ Proof.
     refine (conj _ (conj _ _)).
     + cbn [length]. rewrite Hlen. reflexivity.
     + intros e0 [E|Hi]; [subst; exact Hok|exact (Hoks e0 Hi)].
-    + destruct (overlaps m r) as [|L ls] eqn:LO.
-      * destruct Hcase as (He & Hnone). subst e. cbn [snd] in *.
-        destruct Hdisj as [(Hmap & Hfop & Hfree)|(e0 & Hi & Hk)].
-        -- left. refine (conj _ (conj _ _)).
-           ++ cbn [map snd]. rewrite Hmap. reflexivity.
-           ++ apply FOP_cons; [|exact Hfop]. apply Forall_forall. intros r' Hr' x y A B.
-              pose proof (Hfree r' Hr' x y B) as N. rewrite (Hin x y A) in N. discriminate.
-           ++ intros r' [E|Hr'] x y B; [subst r'; exact (Hnone x y B)|].
-              pose proof (Hfree r' Hr' x y B) as N. destruct (in_rect x y r) eqn:A; [rewrite (Hin x y A) in N; discriminate|].
-              rewrite (Hout x y A) in N. exact N.
-        -- right. exists e0. split; [|exact Hk]. rewrite <- app_assoc in Hi. exact Hi.
-      * (* an overlap was found: the overlapped range no longer sits at its own top-left position *)
-        right. destruct Hcase as (Hide & (x0 & y0 & HL) & HtlL). exists L. split; [apply in_or_app; left; exact (Hm x0 y0 L HL)|].
+    + destruct Hdisj as [(Hmap & Hfop & Hfree & Hsame)|(e0 & Hi & Hk)].
+      2:{ right. exists e0. split; [|exact Hk]. rewrite <- app_assoc in Hi. exact Hi. }
+      destruct (overlaps m r) as [|L ls] eqn:LO.
+      * destruct Hcase as (He & Hnone). subst e. cbn [snd] in *. left. refine (conj _ (conj _ (conj _ _))).
+        -- cbn [map snd]. rewrite Hmap. reflexivity.
+        -- apply FOP_cons; [|exact Hfop]. apply Forall_forall. intros r' Hr' x y A B.
+           pose proof (Hfree r' Hr' x y B) as N. rewrite (Hin x y A) in N. discriminate.
+        -- intros r' [E|Hr'] x y B; [subst r'; exact (Hnone x y B)|].
+           pose proof (Hfree r' Hr' x y B) as N. destruct (in_rect x y r) eqn:A; [rewrite (Hin x y A) in N; discriminate|].
+           rewrite (Hout x y A) in N. exact N.
+        -- intros x y Hne. destruct (in_rect x y r) eqn:A; [rewrite (Hnone x y A) in Hne; contradiction|].
+           rewrite Hsame; [exact (Hout x y A)|]. rewrite (Hout x y A). exact Hne.
+      * (* an overlap was found here and none later: the overlapped entry stays joined into the new one *)
+        right. destruct Hcase as (Hide & (x0 & y0 & HL) & HtlL & Hcont). exists L. split; [apply in_or_app; left; exact (Hm x0 y0 L HL)|].
         destruct (Hd L (Hm x0 y0 L HL)) as [HoL HokL].
-        assert (Hmok1 : forall x y e0, m1 x y = Some e0 -> rect_ok (snd e0)) by (intros x y e0 E; exact (proj2 (Hd1 e0 (Hm1 x y e0 E)))).
-        destruct (flat_sticky n l (S i) m1 m' es' FL Hl' Hmok1) as (St & _).
-        rewrite keep_eq. destruct (St (tlx L) (tly L)) as [E|(e1 & E1 & _ & j & Hj & Hje)].
-        -- rewrite E, HtlL. destruct e as [ide re]. cbn [fst] in Hide. subst ide. apply Nat.eqb_neq. unfold old_id in HoL. lia.
-        -- rewrite E1. destruct e1 as [id1 r1]. cbn [fst] in Hje. apply Nat.eqb_neq. unfold old_id in HoL. lia.
+        rewrite keep_eq, Hsame by (rewrite HtlL; discriminate). rewrite HtlL. destruct e as [ide re]. cbn [fst snd] in *. subst ide.
+        rewrite Hcont. cbn [negb]. rewrite Bool.orb_false_r. apply Nat.eqb_neq. unfold old_id in HoL. lia.
 Qed.
 
 (* ---- the second loop ---- *)
-Definition below (m' m : matrix) : Prop := forall x y, m' x y = None \/ m' x y = m x y.
-Lemma below_refl m : below m m. Proof. intros x y; right; reflexivity. Qed.
-Lemma below_clear m' m r : below m' m -> below (clear m' r) m.
-Proof. intros H x y. unfold clear. destruct (in_rect x y r); [left; reflexivity|apply H]. Qed.
-Lemma keep_below m' m e : below m' m -> keep m' e = true -> keep m e = true.
-Proof. intros H. rewrite !keep_eq. destruct (H (tlx e) (tly e)) as [E|E]; rewrite E; [discriminate|tauto]. Qed.
-
 Lemma sweep_in m l e : In e (sweep m l) -> In e l.
-Proof.
-  revert m; induction l as [|a l IH]; intros m; cbn [sweep]; [tauto|].
-  destruct (keep m a); [intros [E|H]; [left; exact E|right; exact (IH _ H)]|intros H; right; exact (IH _ H)].
-Qed.
+Proof. unfold sweep. intros H. apply filter_In in H. exact (proj1 H). Qed.
 Lemma sweep_len m l : (length (sweep m l) <= length l)%nat.
+Proof. unfold sweep. induction l as [|a l IH]; cbn [filter length]; [lia|]. destruct (keep m a); cbn [length]; lia. Qed.
+Lemma sweep_lt m : forall l, (exists e, In e l /\ keep m e = false) -> (length (sweep m l) < length l)%nat.
 Proof.
-  revert m; induction l as [|a l IH]; intros m; cbn [sweep length]; [lia|].
-  destruct (keep m a); cbn [length]; [specialize (IH (clear m (snd a)))|specialize (IH m)]; lia.
+  unfold sweep. induction l as [|a l IH]; intros (e & Hi & Hk); [destruct Hi|]. cbn [filter length].
+  destruct Hi as [E|Hi].
+  - subst a. rewrite Hk. pose proof (sweep_len m l). unfold sweep in *. lia.
+  - specialize (IH (ex_intro _ e (conj Hi Hk))). destruct (keep m a); cbn [length]; lia.
 Qed.
-Lemma sweep_lt mf : forall l m, below m mf -> (exists e, In e l /\ keep mf e = false) -> (length (sweep m l) < length l)%nat.
+Lemma sweep_pairs (P : rect -> rect -> Prop) m : forall l, ForallOrdPairs P (map snd l) -> ForallOrdPairs P (map snd (sweep m l)).
 Proof.
-  induction l as [|a l IH]; intros m Hb (e & Hi & Hk); [destruct Hi|]. cbn [sweep length].
-  destruct (keep m a) eqn:K.
-  - destruct Hi as [E|Hi].
-    + subst a. rewrite (keep_below m mf e Hb K) in Hk. discriminate.
-    + cbn [length]. specialize (IH (clear m (snd a)) (below_clear m mf (snd a) Hb) (ex_intro _ e (conj Hi Hk))). lia.
-  - pose proof (sweep_len m l). lia.
-Qed.
-Lemma sweep_pairs (P : rect -> rect -> Prop) : forall l m, ForallOrdPairs P (map snd l) -> ForallOrdPairs P (map snd (sweep m l)).
-Proof.
-  induction l as [|a l IH]; intros m H; cbn [sweep map] in *; [exact H|].
-  inversion H as [|? ? Ha Hl]; subst. destruct (keep m a); [|exact (IH m Hl)].
-  cbn [map]. apply FOP_cons; [|exact (IH _ Hl)].
+  unfold sweep. induction l as [|a l IH]; intros H; cbn [filter map] in *; [exact H|].
+  inversion H as [|? ? Ha Hl]; subst. destruct (keep m a); [|exact (IH Hl)].
+  cbn [map]. apply FOP_cons; [|exact (IH Hl)].
   apply Forall_forall. intros r Hr. apply in_map_iff in Hr. destruct Hr as (e & E & Hi). subst r.
-  apply (proj1 (Forall_forall _ _) Ha). apply in_map. exact (sweep_in _ l e Hi).
+  apply (proj1 (Forall_forall _ _) Ha). apply in_map. apply filter_In in Hi. exact (proj1 Hi).
 Qed.
 
 (* ---- one pass, and the repetition ---- *)
@@ -220,9 +194,9 @@ Proof.
   - apply Forall_forall. intros r Hr. apply in_map_iff in Hr. destruct Hr as (e & E & Hi). subst r.
     exact (Hoks e (sweep_in mf es e Hi)).
   - rewrite map_length, <- Hlen. apply sweep_len.
-  - rewrite map_length. intros Hfull. destruct Hcase as [(Hmap & Hfop & _)|Hdead].
+  - rewrite map_length. intros Hfull. destruct Hcase as [(Hmap & Hfop & _ & _)|Hdead].
     + apply sweep_pairs. rewrite Hmap. exact Hfop.
-    + pose proof (sweep_lt mf es mf (below_refl mf) Hdead). exfalso. change (@length (nat * rect) (sweep mf es)) with (@length ent (sweep mf es)) in Hfull. lia.
+    + pose proof (sweep_lt mf es Hdead). exfalso. change (@length (nat * rect) (sweep mf es)) with (@length ent (sweep mf es)) in Hfull. lia.
 Qed.
 
 Lemma norm_fuel_spec : forall fuel cells, (length cells <= fuel)%nat -> Forall rect_ok cells ->
@@ -268,24 +242,20 @@ Proof.
       unfold fill. rewrite (Hnot r (or_introl eq_refl)). reflexivity.
 Qed.
 
-Lemma sweep_all : forall es m, ForallOrdPairs disjoint (map snd es) -> (forall e, In e es -> rect_ok (snd e)) ->
+Lemma sweep_all : forall es m, (forall e, In e es -> rect_ok (snd e)) ->
   (forall e, In e es -> forall x y, in_rect x y (snd e) = true -> m x y = Some e) -> sweep m es = es.
 Proof.
-  induction es as [|e es IH]; intros m Hfop Hok Hm; cbn [sweep]; [reflexivity|].
-  cbn [map] in Hfop. inversion Hfop as [|? ? He Hfop']; subst.
+  unfold sweep. induction es as [|e es IH]; intros m Hok Hm; cbn [filter]; [reflexivity|].
   rewrite keep_eq, (Hm e (or_introl eq_refl) _ _ (tl_in_e e (Hok e (or_introl eq_refl)))).
-  destruct e as [id r]. cbn [fst snd]. rewrite Nat.eqb_refl. f_equal.
-  apply IH; [exact Hfop'|intros e' Hi; exact (Hok e' (or_intror Hi))|].
-  intros e' Hi x y B. unfold clear. destruct (in_rect x y r) eqn:A.
-  - exfalso. exact (proj1 (Forall_forall _ _) He (snd e') (in_map snd es e' Hi) x y A B).
-  - exact (Hm e' (or_intror Hi) x y B).
+  destruct e as [id r]. cbn [fst snd]. rewrite Nat.eqb_refl. cbn [orb]. f_equal.
+  apply IH; [intros e' Hi; exact (Hok e' (or_intror Hi))|intros e' Hi; exact (Hm e' (or_intror Hi))].
 Qed.
 
 Lemma pass_fixed l : Forall rect_ok l -> ForallOrdPairs disjoint l -> pass l = l.
 Proof.
   intros Hok Hfop. unfold pass. destruct (flat (length l) 0 mempty l) as [mf es] eqn:F.
   destruct (flat_disjoint (length l) l 0%nat mempty mf es F Hok Hfop ltac:(intros; reflexivity)) as (Hmap & Hin & _).
-  rewrite sweep_all; [exact Hmap|rewrite Hmap; exact Hfop| |exact Hin].
+  rewrite sweep_all; [exact Hmap| |exact Hin].
   intros e Hi. apply (proj1 (Forall_forall _ _) Hok). rewrite <- Hmap. apply in_map. exact Hi.
 Qed.
 
@@ -297,6 +267,104 @@ Qed.
 
 Theorem norm_idem cells : Forall rect_ok cells -> norm (norm cells) = norm cells.
 Proof. intros Hok. destruct (norm_disjoint cells Hok) as (A & B & _). exact (norm_fixed _ B A). Qed.
+
+(* ---- nothing that was merged is lost: every range given lies inside a range that is left ---- *)
+Lemma flat_overwrite n : forall l i m m' es, flat n i m l = (m', es) -> Forall rect_ok l ->
+  (forall x y e0, m x y = Some e0 -> rect_ok (snd e0)) ->
+  (forall x y, m' x y = m x y \/ exists e', In e' es /\ m' x y = Some e') /\
+  (forall x y e0, m' x y = Some e0 -> rect_ok (snd e0)) /\
+  Forall2 (fun r e => contains (snd e) r = true) l es.
+Proof.
+  induction l as [|r l IH]; intros i m m' es H Hl Hm; cbn [flat] in H.
+  - inversion H; subst. refine (conj (fun x y => or_introl eq_refl) (conj Hm (Forall2_nil _))).
+  - destruct (flat_step n i m r) as [m1 e] eqn:FS. destruct (flat n (S i) m1 l) as [m2 es'] eqn:FL. inversion H; subst; clear H.
+    inversion Hl as [|? ? Hr Hl']; subst.
+    destruct (flat_step_spec n i m r m1 e FS Hr Hm) as (_ & Hok & Hsub & Hin & Hout & _).
+    assert (Hm1 : forall x y e0, m1 x y = Some e0 -> rect_ok (snd e0)).
+    { intros x y e0 E. destruct (in_rect x y (snd e)) eqn:B.
+      - rewrite (Hin x y B) in E. inversion E; subst. exact Hok.
+      - rewrite (Hout x y B) in E. exact (Hm x y e0 E). }
+    destruct (IH (S i) m1 m' es' FL Hl' Hm1) as (Ov & Hok' & F2).
+    refine (conj _ (conj Hok' (Forall2_cons _ _ _ F2))).
+    + intros x y. destruct (Ov x y) as [E|(e' & Hi & E)].
+      * destruct (in_rect x y (snd e)) eqn:B.
+        -- right. exists e. split; [left; reflexivity|]. rewrite E. exact (Hin x y B).
+        -- left. rewrite E. exact (Hout x y B).
+      * right. exists e'. split; [right; exact Hi|exact E].
+    + apply (contains_spec _ _ Hr). exact Hsub.
+Qed.
+
+Lemma flat_self_or_later n : forall l i m m' es, flat n i m l = (m', es) -> Forall rect_ok l ->
+  (forall x y e0, m x y = Some e0 -> rect_ok (snd e0)) ->
+  forall es1 e es2, es = es1 ++ e :: es2 -> forall x y, in_rect x y (snd e) = true ->
+  exists e', In e' (e :: es2) /\ m' x y = Some e'.
+Proof.
+  induction l as [|r l IH]; intros i m m' es H Hl Hm es1 e es2 Hes x y Hxy; cbn [flat] in H.
+  - inversion H; subst. destruct es1; discriminate.
+  - destruct (flat_step n i m r) as [m1 e0] eqn:FS. destruct (flat n (S i) m1 l) as [m2 es'] eqn:FL.
+    inversion H as [[Em Ees]]; clear H. subst m2. rewrite <- Ees in Hes. clear Ees es.
+    inversion Hl as [|? ? Hr Hl']; subst.
+    destruct (flat_step_spec n i m r m1 e0 FS Hr Hm) as (_ & Hok & _ & Hin & Hout & _).
+    assert (Hm1 : forall x y e1, m1 x y = Some e1 -> rect_ok (snd e1)).
+    { intros x' y' e1 E. destruct (in_rect x' y' (snd e0)) eqn:B.
+      - rewrite (Hin x' y' B) in E. inversion E; subst. exact Hok.
+      - rewrite (Hout x' y' B) in E. exact (Hm x' y' e1 E). }
+    destruct es1 as [|a es1']; cbn [app] in Hes; inversion Hes; subst.
+    + destruct (flat_overwrite n l (S i) m1 m' es2 FL Hl' Hm1) as (Ov & _ & _).
+      destruct (Ov x y) as [E|(e' & Hi & E)].
+      * exists e. split; [left; reflexivity|]. rewrite E. exact (Hin x y Hxy).
+      * exists e'. split; [right; exact Hi|exact E].
+    + exact (IH (S i) m1 m' (es1' ++ e :: es2) FL Hl' Hm1 es1' e es2 eq_refl x y Hxy).
+Qed.
+
+Lemma cover_kept n cells mf es : flat n 0 mempty cells = (mf, es) -> (0 + length cells <= n)%nat -> Forall rect_ok cells ->
+  forall e, In e es -> exists e', In e' (sweep mf es) /\ contains (snd e') (snd e) = true.
+Proof.
+  intros F Hn Hok.
+  assert (Hm0 : forall x y e0, mempty x y = Some e0 -> rect_ok (snd e0)) by (intros; discriminate).
+  assert (Hoks : forall e, In e es -> rect_ok (snd e)).
+  { exact (proj1 (proj2 (flat_spec n cells 0%nat mempty [] mf es F Hn Hok ltac:(intros x y e0 E; discriminate) ltac:(intros e0 [])))). }
+  assert (G : forall es2 es1, es = es1 ++ es2 -> forall e, In e es2 ->
+              exists e', In e' (sweep mf es) /\ contains (snd e') (snd e) = true).
+  { induction es2 as [|e0 es2 IH]; intros es1 Hes e Hi; [destruct Hi|].
+    assert (IH' : forall e, In e es2 -> exists e', In e' (sweep mf es) /\ contains (snd e') (snd e) = true).
+    { intros e1 Hi1. apply (IH (es1 ++ [e0])); [rewrite <- app_assoc; exact Hes|exact Hi1]. }
+    destruct Hi as [E|Hi]; [subst e|exact (IH' e Hi)].
+    assert (Hin0 : In e0 es) by (rewrite Hes; apply in_or_app; right; left; reflexivity).
+    destruct (keep mf e0) eqn:K.
+    - exists e0. split; [unfold sweep; apply filter_In; split; assumption|apply contains_refl].
+    - rewrite keep_eq in K.
+      destruct (flat_self_or_later n cells 0%nat mempty mf es F Hok Hm0 es1 e0 es2 Hes _ _ (tl_in_e e0 (Hoks e0 Hin0))) as (e'' & Hi'' & E'').
+      rewrite E'' in K. destruct e'' as [id'' r'']. apply Bool.orb_false_iff in K. destruct K as [Kid Kc].
+      apply Bool.negb_false_iff in Kc. destruct Hi'' as [E|Hi''].
+      + subst e0. cbn [fst] in Kid. rewrite Nat.eqb_refl in Kid. discriminate.
+      + destruct (IH' _ Hi'') as (e' & Hk & Hc). exists e'. split; [exact Hk|]. cbn [snd] in Hc. exact (contains_trans _ _ _ Hc Kc). }
+  intros e Hi. exact (G es [] eq_refl e Hi).
+Qed.
+
+Lemma pass_cover cells : Forall rect_ok cells -> forall r, In r cells -> exists r', In r' (pass cells) /\ contains r' r = true.
+Proof.
+  intros Hok r Hr. unfold pass. destruct (flat (length cells) 0 mempty cells) as [mf es] eqn:F.
+  assert (Hm0 : forall x y e0, mempty x y = Some e0 -> rect_ok (snd e0)) by (intros; discriminate).
+  destruct (flat_overwrite (length cells) cells 0%nat mempty mf es F Hok Hm0) as (_ & _ & F2).
+  assert (He : exists e, In e es /\ contains (snd e) r = true).
+  { clear F. induction F2 as [|r0 e l es' Hc _ IH]; [destruct Hr|]. destruct Hr as [E|Hr].
+    - subst r0. exists e. split; [left; reflexivity|exact Hc].
+    - inversion Hok; subst. destruct (IH H2 Hr) as (e1 & Hi & Hc1). exists e1. split; [right; exact Hi|exact Hc1]. }
+  destruct He as (e & Hi & Hc). destruct (cover_kept (length cells) cells mf es F (le_n _) Hok e Hi) as (e' & Hk & Hc').
+  exists (snd e'). split; [apply in_map; exact Hk|exact (contains_trans _ _ _ Hc' Hc)].
+Qed.
+
+Theorem norm_cover cells : Forall rect_ok cells -> forall r, In r cells -> exists r', In r' (norm cells) /\ contains r' r = true.
+Proof.
+  unfold norm. generalize (length cells) as fuel. intros fuel. revert cells.
+  induction fuel as [|k IH]; intros cells Hok r Hr; cbn [norm_fuel].
+  - exists r. split; [exact Hr|apply contains_refl].
+  - destruct (pass_spec cells Hok) as (Hok' & _ & _). destruct (pass_cover cells Hok r Hr) as (r1 & Hi1 & Hc1).
+    destruct (Nat.ltb (length (pass cells)) (length cells)).
+    + destruct (IH (pass cells) Hok' r1 Hi1) as (r2 & Hi2 & Hc2). exists r2. split; [exact Hi2|exact (contains_trans _ _ _ Hc2 Hc1)].
+    + exists r1. split; assumption.
+Qed.
 
 (* ---- histories of MergeCell / UnmergeCell / GetMergeCells ---- *)
 Lemma merge_step_ok cells o : Forall rect_ok cells -> mop_ok o -> Forall rect_ok (merge_step cells o).
@@ -321,3 +389,6 @@ Theorem reported_get_pure ops : Forall mop_ok ops -> reported (ops ++ [MGet]) = 
 Proof.
   intros H. unfold reported, merge_run. rewrite fold_left_app. cbn [fold_left merge_step]. apply norm_idem. exact (merge_run_ok ops H).
 Qed.
+
+Theorem reported_cover ops : Forall mop_ok ops -> forall r, In r (merge_run ops) -> exists r', In r' (reported ops) /\ contains r' r = true.
+Proof. intros H r Hr. exact (norm_cover (merge_run ops) (merge_run_ok ops H) r Hr). Qed.
